@@ -265,7 +265,8 @@ func VerifC03_ContainerTamper() {
 		return
 	}
 	var mod []byte
-	if verif.Choose("mode", 0, 1) == 0 {
+	headerMode := verif.Choose("mode", 0, 1) == 0
+	if headerMode {
 		mod = verifDup(c)
 		copy(mod[:SerializedContainerMinSize], verif.Bytes("hdr", SerializedContainerMinSize))
 	} else {
@@ -283,7 +284,9 @@ func VerifC03_ContainerTamper() {
 	if err == nil {
 		verif.Assert(verif.Eq(out, d), "tampered-original-or-error")
 	}
-	if verif.Tier() == 0 {
+	// thorough: the column processor too, for truncated / extended values (12 arbitrary header bytes through the
+	// detector's scan do not finish inside the thorough budget; header edits are decided above and in C14)
+	if verif.Tier() == 0 || headerMode {
 		return
 	}
 	_, col, err := wrapper.OnColumn(verifCtx("A"), verifDup(mod))
